@@ -1459,3 +1459,94 @@ func runR71(c *Ctx) {
 		c.undecided("sql.Column|float slice", p.pos(nullFn.Pos()), "no method appends to a float slice")
 	}
 }
+
+// ---- R68: an apply kernel returns its source column only when that column is physically empty ----
+
+func init() {
+	register(&Rule{ID: "R68", Name: "APPLY-NOT-SOURCE", Floor: 7,
+		Text: "in the column packages, a function that takes a row index (index.Int) and produces a column value (Apply1, Apply2 and the built-in apply functions stored in the per-type function tables) returns its own source column (receiver or Column parameter) only under a dominating guard that the column's physical storage is empty (len(storage) == 0): for any other input, and in particular for an empty row selection over a non-empty column (FilteredApply matching nothing), the result is a new column sized by the storage whose unselected rows are zero/null, not a copy of the source",
+		Run:  runR68})
+}
+
+func runR68(c *Ctx) {
+	p := c.P
+	f := p.idxFacts()
+	for _, cp := range columnPkgs {
+		for _, fn := range p.FuncsIn(cp) {
+			if fn.Parent() != nil {
+				continue
+			}
+			hasIx := false
+			var cols []*ssa.Parameter
+			for _, prm := range fn.Params {
+				if isIntIndexType(prm.Type()) {
+					hasIx = true
+				}
+				if n, ok := prm.Type().(*types.Named); ok && n.Obj().Name() == "Column" && n.Obj().Pkg() == fn.Pkg.Pkg {
+					cols = append(cols, prm)
+				}
+			}
+			res := fn.Signature.Results()
+			if !hasIx || len(cols) == 0 || res.Len() == 0 {
+				continue
+			}
+			if it, isIface := res.At(0).Type().Underlying().(*types.Interface); !isIface || it.NumMethods() != 0 {
+				continue // apply results are interface{}; Rolling (column.Column) is an unimplemented stub outside every property
+			}
+			fnm := fname(fn)
+			n := 0
+			eachInstr(fn, func(in ssa.Instruction) {
+				ret, ok := in.(*ssa.Return)
+				if !ok || len(ret.Results) == 0 {
+					return
+				}
+				v := ret.Results[0]
+				if mi, ok := v.(*ssa.MakeInterface); ok {
+					v = mi.X
+				}
+				var src *ssa.Parameter
+				for _, cprm := range cols {
+					if fieldPathRootIsParam(v, cprm) {
+						if _, isCol := v.Type().(*types.Named); isCol && types.Identical(v.Type(), cprm.Type()) {
+							src = cprm
+						}
+					}
+				}
+				if src == nil {
+					return
+				}
+				n++
+				key := fnm + "|returns its source"
+				guarded := false
+				for _, g := range dominatingGuards(in.Block()) {
+					b, ok := g.Cond.(*ssa.BinOp)
+					if !ok {
+						continue
+					}
+					call, ok := b.X.(*ssa.Call)
+					if !ok || builtinName(call) != "len" {
+						continue
+					}
+					k, isK := constInt(b.Y)
+					if !isK || k != 0 {
+						continue
+					}
+					if !(b.Op == token.EQL && g.Val || b.Op == token.NEQ && !g.Val || b.Op == token.GTR && !g.Val) {
+						continue
+					}
+					if f.isStorage(call.Call.Args[0]) && fieldPathRootIsParam(call.Call.Args[0], src) {
+						guarded = true
+					}
+				}
+				if guarded {
+					c.ok(key, p.instrPos(ret), "only when the column's storage is empty")
+				} else {
+					c.bad(key, p.instrPos(ret), "the source column itself is returned as the result without a guard that its storage is empty: rows that were not selected keep the source's values instead of zero/null")
+				}
+			})
+			if n == 0 {
+				c.okTrivial(fnm+"|never returns its source", p.pos(fn.Pos()), "every result is a new value")
+			}
+		}
+	}
+}
